@@ -595,38 +595,98 @@ pub fn budget_case(case: u64, rng: &mut Rng, st: &mut Stats) {
 /// alarm does not cut the `pairs` exploration short).
 pub const VECTOR_UNTYPED: &str = "vector_in_untyped_position_counts_as_one_node";
 
-/// A `Vector` sitting in an UNTYPED position (element of `Array([])`, value of `Map({})`): for the
-/// complexity budget it is one node when written, but len+1 nodes / an array of len elements
-/// once read back, where no declared type folds it back into a Vector. Returns (type, value).
-pub fn vector_in_untyped_value(rng: &mut Rng) -> (Ft, Fv) {
+/// A `Vector` sitting in an UNTYPED position (element of `Array([])`, value of `Map({})`): it is one
+/// node as a `Vector`, but len+1 nodes / an array of len elements once read back, where no declared
+/// type folds it back into a Vector. The variants straddle the three limits of the read-back shape
+/// (array length 4096, node count 16384, depth 64). Returns (type, value, variant, read-back shape
+/// within the documented budget).
+pub fn vector_in_untyped_value(rng: &mut Rng) -> (Ft, Fv, &'static str, bool) {
     let big = |n: u32| Fv::Vector((0..n).map(|i| bf16::from_bits((i % 0x7f00) as u16)).collect());
-    let payload: Vec<Fv> = if rng.bool() {
-        vec![Fv::U64(1), big(4097)] // array length 4097 > 4096 on read
-    } else {
-        (0..90).map(|_| big(200)).collect() // 91 nodes when written, 18091 > 16384 on read
+    let deep = |containers: usize| {
+        let mut v = big(1);
+        for _ in 0..containers {
+            v = Fv::Array(vec![v]);
+        }
+        vec![v]
     };
-    match rng.below(4) {
-        0 => (Ft::Array(vec![]), Fv::Array(payload)),
-        1 => (Ft::Option(Box::new(Ft::Array(vec![]))), Fv::Array(payload)),
+    let (payload, variant): (Vec<Fv>, &'static str) = match rng.below(8) {
+        0 => (vec![Fv::U64(1), big(4097)], "array_len_over"), // array length 4097 > 4096 on read
+        1 => (vec![Fv::U64(1), big(4096)], "array_len_at_limit"),
+        2 => ((0..90).map(|_| big(200)).collect(), "nodes_over"), // 91 nodes as Vectors, 18091 on read
+        3 => ((0..80).map(|_| big(200)).collect(), "nodes_within"), // <= 16083 on read in every wrapper
+        // 1 + 3*(1+4094) + (1+4095) + 2 = 16384 nodes on read under a bare Array([])
+        4 => (vec![big(4094), big(4094), big(4094), big(4095), Fv::U64(1), Fv::U64(2)], "nodes_exact_or_one_over"),
+        5 => (vec![big(4094), big(4094), big(4094), big(4095), Fv::U64(1), Fv::U64(2), Fv::U64(3), Fv::U64(4)], "nodes_just_over"),
+        // the payload array is container 1 (2 under the wildcard wrapper): the bit patterns of the
+        // innermost vector sit at depth 61 + 2 (+1) = 63/64 resp. 63 + 2 (+1) = 65/66 on read
+        6 => (deep(61), "depth_within"),
+        _ => (deep(63), "depth_over"),
+    };
+    let fits = match variant {
+        "array_len_at_limit" | "nodes_within" | "depth_within" => Some(true),
+        "array_len_over" | "nodes_over" | "nodes_just_over" | "depth_over" => Some(false),
+        _ => None,
+    };
+    let (ft, v, wrapped) = match rng.below(4) {
+        0 => (Ft::Array(vec![]), Fv::Array(payload), false),
+        1 => (Ft::Option(Box::new(Ft::Array(vec![]))), Fv::Array(payload), false),
         2 => (
             Ft::Map(BTreeMap::new()),
             Fv::Map(payload.into_iter().enumerate().map(|(i, v)| (FieldKey::I64(i as i64), v)).collect()),
+            false,
         ),
         _ => (
             Ft::Map(BTreeMap::from([(FieldKey::Text("*".into()), Ft::Array(vec![]))])),
             Fv::Map(BTreeMap::from([(FieldKey::Text("k".into()), Fv::Array(payload))])),
+            true,
         ),
-    }
+    };
+    (ft, v, variant, fits.unwrap_or(!wrapped))
 }
 
 pub fn vector_untyped_case(_case: u64, rng: &mut Rng, st: &mut Stats) {
-    let (ft, v) = vector_in_untyped_value(rng);
+    let (ft, v, variant, fits) = vector_in_untyped_value(rng);
     let Ok(schema) = build_schema(&[("v".to_string(), ft.clone())], 1) else {
         return st.inconclusive("harness: schema build failed");
     };
     let schema = Arc::new(schema);
+    // the harness's own reading of the budget on the read-back shape (cross-check of `fits`)
+    let (nodes, depth, widest) = generic_measure(&generic_canon(&v));
+    if fits != (nodes <= 16384 && depth <= 64 && widest <= 4096) {
+        return st.inconclusive(format!("harness: vector_untyped variant {variant} mislabelled: nodes {nodes} depth {depth} widest {widest}"));
+    }
+    let accepted = write_set_field(&schema, &v).is_ok();
+    st.count(&format!(
+        "vector_untyped:{}:{}",
+        if fits { "read_back_within_budget" } else { "read_back_over_budget" },
+        if accepted { "accepted" } else { "rejected" }
+    ));
+    st.set("vector_untyped_variants", vcore::fnv_str(variant) ^ vcore::fnv_str(ctor_name(&ft)));
     check_value(&PairCtx { schema: &schema, ft: &ft, class: VECTOR_UNTYPED }, &v, None, Expect::Grey, st);
     st.count("grey:vector_in_untyped_position");
+}
+
+/// (nodes, deepest node depth, widest container) of a value in its schema-less shape, counted the
+/// way the documentation describes the budget: every value is a node, the root is at depth 0.
+pub fn generic_measure(v: &Fv) -> (usize, usize, usize) {
+    fn go(v: &Fv, depth: usize, acc: &mut (usize, usize, usize)) {
+        acc.0 += 1;
+        acc.1 = acc.1.max(depth);
+        match v {
+            Fv::Array(a) => {
+                acc.2 = acc.2.max(a.len());
+                a.iter().for_each(|x| go(x, depth + 1, acc));
+            }
+            Fv::Map(m) => {
+                acc.2 = acc.2.max(m.len());
+                m.values().for_each(|x| go(x, depth + 1, acc));
+            }
+            _ => {}
+        }
+    }
+    let mut acc = (0, 0, 0);
+    go(v, 0, &mut acc);
+    acc
 }
 
 // ---------------------------------------------------------------------------------------------
@@ -883,6 +943,7 @@ struct Version {
 
 struct StoredDoc {
     version: usize,
+    id: u64,
     bytes: Vec<u8>,
     /// lineage -> (field name, written value)
     values: BTreeMap<u64, (String, Fv)>,
@@ -962,14 +1023,16 @@ pub fn upgrade_case(_case: u64, rng: &mut Rng, st: &mut Stats, with_retype: bool
     // nested keys that were removed at some point (per lineage), and those re-added later
     let mut nested_removed: BTreeMap<u64, BTreeMap<FieldKey, Ft>> = BTreeMap::new();
     let mut nested_readded: BTreeMap<u64, BTreeSet<FieldKey>> = BTreeMap::new();
-    let mut nested_readded_other_type: BTreeMap<u64, BTreeSet<FieldKey>> = BTreeMap::new();
+    // lineage -> key -> index (into `versions`) of the version that declared it again with ANOTHER type
+    let mut nested_readded_other_type: BTreeMap<u64, BTreeMap<FieldKey, usize>> = BTreeMap::new();
     let mut log: Vec<String> = vec![];
     let n_steps = if with_retype { 3 + rng.usize(3) } else { 2 + rng.usize(4) };
 
     let write_docs = |vi: usize, ver: &Version, rng: &mut Rng, docs: &mut Vec<StoredDoc>, st: &mut Stats| {
         for _ in 0..2 {
             let mut doc = Document::new(ver.schema.clone());
-            doc.set_id(100 + docs.len() as u64);
+            let id = 100 + docs.len() as u64;
+            doc.set_id(id);
             let mut values = BTreeMap::new();
             for f in &ver.fields {
                 let mut g = G { rng: &mut *rng, boundary: false };
@@ -987,7 +1050,7 @@ pub fn upgrade_case(_case: u64, rng: &mut Rng, st: &mut Stats, with_retype: bool
                 values.insert(f.lineage, (f.name.clone(), v));
             }
             match doc_bytes(&doc) {
-                Ok(bytes) => docs.push(StoredDoc { version: vi, bytes, values }),
+                Ok(bytes) => docs.push(StoredDoc { version: vi, id, bytes, values }),
                 Err(e) => st.violation("C13/valid_accepted_but_not_serializable/set_field", json!({"monitor": "upgrade", "error": e})),
             }
         }
@@ -1111,7 +1174,7 @@ pub fn upgrade_case(_case: u64, rng: &mut Rng, st: &mut Stats, with_retype: bool
                                     break c;
                                 }
                             };
-                            nested_readded_other_type.entry(lineage).or_default().insert(k.clone());
+                            nested_readded_other_type.entry(lineage).or_default().insert(k.clone(), versions.len());
                             Ft::Option(Box::new(other))
                         };
                         log.push(format!("v{}: {}.re-add {k:?}: {}", step + 2, fields[i].name, type_shape(&t)));
@@ -1188,27 +1251,57 @@ pub fn upgrade_case(_case: u64, rng: &mut Rng, st: &mut Stats, with_retype: bool
             st.count("upgrade_old_doc_reads");
             let span = versions.len() - d.version;
             st.max("max_upgrade_read_span", span as u64);
-            let touched_by_retype = ver.fields.iter().any(|f| {
-                d.values.contains_key(&f.lineage)
-                    && nested_readded_other_type.get(&f.lineage).map(|s| !s.is_empty()).unwrap_or(false)
-            });
             let doc = match read_bytes(&ver.schema, &d.bytes) {
                 Ok(doc) => doc,
                 Err((stage, e)) => {
-                    let sig = if touched_by_retype {
-                        "C13/upgrade/old_document_unreadable/after_nested_key_readded_with_other_type".to_string()
+                    // Known finding (needs a maintainer decision): a nested key that was removed
+                    // and later declared again with ANOTHER type makes documents that still carry
+                    // the old entry unreadable. The failure is attributed to it only when the very
+                    // same document, minus exactly those stale entries, IS readable; anything
+                    // else keeps the general signature.
+                    let detail = json!({"written_at_version": d.version + 1, "read_at_version": versions.len() + 1,
+                        "error": e, "log": log, "stored_bytes": hex(&d.bytes),
+                        "schema_now": brief(&ver.schema, 2500)});
+                    let written_under = &versions[d.version];
+                    let mut stale_entries = 0usize;
+                    let mut parts: Vec<(usize, Fv)> = vec![(0, Fv::U64(d.id))];
+                    for (lineage, (name, written)) in &d.values {
+                        let stale: BTreeSet<FieldKey> = nested_readded_other_type
+                            .get(lineage)
+                            .map(|m| m.iter().filter(|(_, at)| **at > d.version).map(|(k, _)| k.clone()).collect())
+                            .unwrap_or_default();
+                        let (Some(entry), Some(old_f)) =
+                            (written_under.schema.get_field(name), written_under.fields.iter().find(|f| f.lineage == *lineage))
+                        else {
+                            continue;
+                        };
+                        let cleaned = if stale.is_empty() { written.clone() } else { drop_keys(&old_f.ft, written, &stale) };
+                        if !fv_eq(&cleaned, written) {
+                            stale_entries += 1;
+                        }
+                        parts.push((entry.idx(), cleaned));
+                    }
+                    let refs: Vec<(usize, &Fv)> = parts.iter().map(|(i, v)| (*i, v)).collect();
+                    let cleaned_doc = if stale_entries > 0 {
+                        inject_bytes(&refs).ok().and_then(|b| read_bytes(&ver.schema, &b).ok())
                     } else {
-                        format!("C13/upgrade/old_document_unreadable/{stage}")
+                        None
                     };
-                    let report = if touched_by_retype { violation_once } else { |st: &mut Stats, s: String, d: serde_json::Value| st.violation(s, d) };
-                    report(
-                        st,
-                        sig,
-                        json!({"written_at_version": d.version + 1, "read_at_version": versions.len() + 1,
-                            "error": e, "log": log, "stored_bytes": hex(&d.bytes),
-                            "schema_now": brief(&ver.schema, 2500)}),
-                    );
-                    continue;
+                    match cleaned_doc {
+                        Some(doc) => {
+                            violation_once(
+                                st,
+                                "C13/upgrade/old_document_unreadable/after_nested_key_readded_with_other_type".to_string(),
+                                detail,
+                            );
+                            st.count("upgrade_retype_unreadable_but_readable_without_stale_entries");
+                            doc
+                        }
+                        None => {
+                            st.violation(format!("C13/upgrade/old_document_unreadable/{stage}"), detail);
+                            continue;
+                        }
+                    }
                 }
             };
             for f in &ver.fields {
